@@ -1,5 +1,5 @@
 Require Import Extraction ExtrOcamlBasic.
-Require Import Base.Prelude Base.XVal C12.Model C12.Jenks C12.JenksImp.
+Require Import Base.Prelude Base.XVal C12.Model C12.Jenks C12.JenksImp C12.Quantile.
 Extraction Language OCaml.
 Extraction "model.ml" reclass_raster binary_raster class_cell xfind_bin jenks_min
-  jenks_matrices run_jenks jenks_bt_ok jenks_cuts near_tie.
+  jenks_matrices run_jenks jenks_bt_ok jenks_cuts near_tie q_cuts zuniq quantile_class.
